@@ -927,7 +927,9 @@ static std::vector<Scenario> scenarios()
         {"pRRT-empty", [](tse::Out &o) { scPlanner("pRRT-empty", o); }, false, 1, 2, 4000},
         {"pRRT-wall", [](tse::Out &o) { scPlanner("pRRT-wall", o); }, false, 1, 2, 4000},
         {"pSBL-empty", [](tse::Out &o) { scPlanner("pSBL-empty", o); }, false, 1, 2, 4000},
+        {"pSBL-wall", [](tse::Out &o) { scPlanner("pSBL-wall", o); }, false, 1, 2, 4000},
         {"CForest-empty", [](tse::Out &o) { scPlanner("CForest-empty", o); }, false, 1, 1, 3000},
+        {"CForest-wall", [](tse::Out &o) { scPlanner("CForest-wall", o); }, false, 1, 1, 3000},
         {"PRM-wall", [](tse::Out &o) { scPlanner("PRM-wall", o); }, false, 1, 1, 3000},
         {"APS-wall", [](tse::Out &o) { scPlanner("APS-wall", o); }, false, 1, 1, 3000},
         {"goal-lazy", [](tse::Out &o) { scGoalLazy(false, o); }, false, 2, 3, 20000},
